@@ -140,6 +140,11 @@ fn main() {
         let sc = *rng.pick(&divs(k));
         rows.push((n, n * bl, sc, k * bl));
     }
+    // fine-grained global windows (thousands of buckets, down to one bucket per millisecond): legal whenever
+    // they divide and tile, so accepted by validation and usable
+    for (n, ivt, sc, iv) in [(2000u32, 10_000u32, 2u32, 1000u32), (10_000, 10_000, 1, 1000), (5000, 10_000, 5, 1000), (1025, 10_250, 1, 50), (4096, 8192, 2, 4096), (1200, 60_000, 4, 1000)] {
+        rows.push((n, ivt, sc, iv));
+    }
     let mut base = T0_MS + 1_000_000_000 * (1 + opts.shard);
     // the geometry in effect: the documented defaults until the first accepted initialisation
     let mut in_effect: (u32, u32, u32, u32) = (
